@@ -20,6 +20,7 @@ EXPLANATION = (
     "test-and-set on an object created once per preserve_context call (non-blocking Lock.acquire, or a flag "
     "tested and set under one lock) -- a check-then-set flag is a violation; the callable passes arguments, "
     "result and exceptions through unchanged and is f itself without a current action."
+    '  preserve_context must return the guarded callable itself (a shared Context entered per call fails before the guard); every raise in TaskLevel.fromString is decided (a literal regular-expression guard is evaluated on witness strings toString produces).'
 )
 RULE = ("obligation = one codec pair / call site / guard; non-trivial = the expressions or CFG paths of the "
         "site were examined")
